@@ -37,7 +37,7 @@ def _inputs(seed, shard, n_graphs, n_src, n_bc):
 
     @hseed(h64(("c12g", seed, shard)))
     @settings(max_examples=n_graphs, database=None, deadline=None, phases=[Phase.generate], suppress_health_check=list(HealthCheck))
-    @given(g=gg.closed_cfgs(max_n=24, min_n=5), style=st.sampled_from(["bytecode", "alpha", "perm"]), pk=st.integers(0, 2**20))
+    @given(g=gg.closed_cfgs(max_n=24, min_n=5), style=st.sampled_from(["bytecode", "alpha", "perm", "zpad"]), pk=st.integers(0, 2**20))
     def tg(g, style, pk):
         import random
 
